@@ -191,6 +191,7 @@ let extract_case a =
 let dispatch op a =
   match op with
   | "format" -> format_case a
+  | "throwsink" | "fmtref" -> ("OK safe", "OK safe")   (* safety only: user code that throws / a stored formatter_ref *)
   | "writer_retry" -> ("OK retry", "OK retry")   (* safety only: the harness must come back (no read past the NUL, no hang) *)
   | "strtol" -> strtol_case a
   | "insert" -> insert_case a
